@@ -5,14 +5,16 @@
 //   * the sub-interval table is a partition: the cumulated normalised weights end at 1, so the
 //     selection loop `while (ptab[isim] < u) isim++` stops inside the table (engine obligation:
 //     every read of ptab/itab/atab/btab is in bounds and initialised);
-//   * the value proposed by ONE iteration of the rejection loop lies in the selected sub-interval
-//     whatever the three uniform draws are.
+//   * whatever the uniform draws are, the value an accepted iteration returns lies within the bounds.
+// FINDING (kernel C13.c.b): with the lower bound absent and bsup < -20 the function works on [-20, bsup] (a > b):
+// the single weight is negative, total <= 0, and atab[0] = -20 > bsup is returned.
 // The rejection loop `while (ok)` is unbounded.  Nothing is carried from one iteration to the next
 // (isim, u, type, aa, bb, x are all rewritten; the tables are not written inside the loop), so the
 // value returned is the proposal of the last iteration.  The harness therefore supplies 3*VF_NREJ
-// uniform draws (plus one for the degenerate branch) and a further call of law_uniform ends the path
+// uniform draws (the degenerate branch total <= 0 uses one of them) and a further call of law_uniform ends the path
 // (vf_assume(false)): "the proposal is accepted at the latest at iteration VF_NREJ".  VF_NREJ = 1 is
-// the inductive step, VF_NREJ = 2 additionally executes a rejected iteration before the accepted one.
+// the inductive step (registered); VF_NREJ = 2 additionally executes a rejected iteration before the accepted
+// one (not registered: no solver verdict within 45 minutes).
 // Termination (probability one) is outside the claim.
 //
 // law_uniform is overridden: it returns mini + u*(maxi-mini) with u the next element of an array
